@@ -16,3 +16,24 @@ package arbitrators
 //@ loop 1 invariant 0 <= _n && _n <= len(fileNames) && len(result) == _n && fresh(result)
 //@ loop 1 invariant forall(k, 0, len(fileNames), indom(facade.globbedFiles, fileNames[k]) && facade.files[fileNames[k]] != nil)
 //@ loop 1 invariant forall(k, 0, _n, result[k] != nil && exists(n, string, indom(facade.globbedFiles, n) && result[k] == facade.files[n]))
+
+// ---- ranges of parameters and results (C18): from the node's start to the node's end, zero-based ----
+// assumed: a file set's position lookup is a function of the file set and the position; Pos/End are functions
+// of the node
+//@ ufunc posLine(fs *token.FileSet, p token.Pos) int
+//@ ufunc posCol(fs *token.FileSet, p token.Pos) int
+//@ ufunc nodePos(n ast.Node) token.Pos
+//@ ufunc nodeEnd(n ast.Node) token.Pos
+//@ extern go/token.FileSet.Position
+//@ ensures pos.Line == posLine(s, p) && pos.Column == posCol(s, p)
+//@ extern go/ast.Node.Pos
+//@ ensures result == nodePos(recv)
+//@ extern go/ast.Node.End
+//@ ensures result == nodeEnd(recv)
+//@ func PackagesFacade.FSet props C18,C14
+//@ requires facade != nil
+//@ ensures result == facade.fileSet
+//@ func AstArbitrator.getRangeForNode props C18,C14
+//@ requires arb != nil && arb.pkgFacade != nil && n != nil
+//@ ensures start: result.StartLine == posLine(arb.pkgFacade.fileSet, nodePos(n))-1 && result.StartCol == posCol(arb.pkgFacade.fileSet, nodePos(n))-1
+//@ ensures end: result.EndLine == posLine(arb.pkgFacade.fileSet, nodeEnd(n))-1 && result.EndCol == posCol(arb.pkgFacade.fileSet, nodeEnd(n))-1
